@@ -112,6 +112,30 @@ def graph_cases(quick):
     return out
 
 
+def spelling_cases():
+    """The same file reached through different spellings (.., sub-directory, symlink, cycle back to the main file by a
+    relative path): it must still be read once."""
+    out = []
+
+    def case(name, main_inc, sub_inc=None, pre=None, reach=(0, 1, 2)):
+        files = {"main.toml": file_doc(0, extra_global=BASE_GLOBAL, includes=main_inc),
+                 "sub/f1.toml": file_doc(1, includes=sub_inc or []),
+                 "f2.toml": file_doc(2)}
+        r = load_req(files, {"part": "include-graph", "mask": "spelling:" + name, "edges": [name], "reach": list(reach)})
+        if pre:
+            r["phases"][0]["pre"] = pre
+        out.append(r)
+
+    case("dotdot-from-subdirectory", ["sub/f1.toml", "f2.toml"], ["../f2.toml"])
+    case("dotdot-first", ["sub/f1.toml"], ["../f2.toml", "../sub/../f2.toml"])
+    case("same-file-two-spellings-in-one-list", ["f2.toml", "sub/../f2.toml", "sub/f1.toml"])
+    case("cycle-back-to-main-by-relative-path", ["sub/f1.toml", "f2.toml"], ["../main.toml"])
+    case("symlink-alias", ["f2.toml", "alias.toml", "sub/f1.toml"], pre=[{"op": "symlink", "path": "alias.toml", "target": "f2.toml"}])
+    case("symlinked-directory", ["sub/f1.toml", "subalias/f1.toml", "f2.toml"], pre=[{"op": "symlink", "path": "subalias", "target": "sub"}])
+    case("absolute-and-relative", ["@DIR@/f2.toml", "f2.toml", "./f2.toml", "sub/f1.toml"])
+    return out
+
+
 # ---------------------------------------------------------------------------------- (3) global options split over files
 
 GLOBAL_OPTIONS = {
@@ -249,7 +273,7 @@ def judge(req, obs):
             add("references", "%s|accepted" % m["case"], "start-up rejected: a reference does not resolve / duplicate certificate id", "configuration accepted")
         return out
     if new != "ok":
-        add("load", "%s|%s" % (m["part"], m.get("setting") or m.get("option") or m.get("mask")), "configuration loads", str(new)[:300])
+        add("load", "%s|%s" % (m["part"], m.get("setting") or m.get("option") or (m.get("mask") if str(m.get("mask")).startswith("spelling") else "graph")), "configuration loads (each file is read once)", str(new)[:300])
         return out
     parts = ph.get("parts") or {}
     certs = parts.get("certificates", [])
@@ -266,7 +290,7 @@ def judge(req, obs):
         got_eps = sorted(e["name"] for e in parts.get("endpoints", []))
         got_acc = sorted(a["name"] for a in parts.get("accounts", []))
         if got_ids != want_ids:
-            add("include-merge", "certificates|reach=%s" % len(m["reach"]), "certificates of reachable files exactly once: %s" % want_ids, "%s (edges %s)" % (got_ids, m["edges"]))
+            add("include-merge", "certificates|%s" % (m["mask"] if str(m["mask"]).startswith("spelling") else "reach=%s" % len(m["reach"])), "certificates of reachable files exactly once: %s" % want_ids, "%s (edges %s)" % (got_ids, m["edges"]))
         if got_acc != sorted("acc%d" % i for i in m["reach"]):
             add("include-merge", "accounts|reach=%s" % len(m["reach"]), "accounts of reachable files exactly once", "%s (edges %s)" % (got_acc, m["edges"]))
         if got_eps != sorted("ep%d" % i for i in m["reach"]):
@@ -288,10 +312,10 @@ def run(ctx):
     res = Result("exploration")
     res.rule = ("configurations generated from Python dictionaries and resolved independently: (1) all 2^3 presence patterns (certificate/endpoint/global) of renew_delay, "
                 "random_early_renew, file_name_format and the 2^2-1 of the directory, distinct values; (2) all 512 directed include graphs on 3 files (self-loops, cycles, "
-                "duplicates; relative, absolute, glob and ./ paths), each file with its own endpoint, hook, account and certificate; (3) each of the 15 global options set in "
+                "duplicates; relative, absolute, glob and ./ paths) plus 7 cases of one file under two spellings (.., sub-directory, symlinked file and directory), each file with its own endpoint, hook, account and certificate; (3) each of the 15 global options set in "
                 "the main file / an included file / both / two included files in either order / nested; (4) 12 reference cases (dangling endpoint, account, hook, "
                 "group member, rate limit, duplicate certificate ids) with controls. Effective values are read back from MainEventLoop::new.")
-    reqs = precedence_cases() + graph_cases(ctx.quick) + split_cases() + dangling_cases()
+    reqs = precedence_cases() + graph_cases(ctx.quick) + spelling_cases() + split_cases() + dangling_cases()
     obs = ctx.pool.map(reqs, 120.0)
     for r, o in zip(reqs, obs):
         if o.get("panic") and not o.get("phases"):
@@ -299,7 +323,7 @@ def run(ctx):
         e1.check_obs(o)
         res.evaluations += 1
         m = r["meta"]
-        key = {"precedence": lambda: "prec|%s|%s" % (m["setting"], m["pattern"]), "include-graph": lambda: "graph|reach=%s|edges=%d" % (m["reach"], len(m["edges"])),
+        key = {"precedence": lambda: "prec|%s|%s" % (m["setting"], m["pattern"]), "include-graph": lambda: "graph|reach=%s|edges=%s" % (m["reach"], len(m["edges"]) if not str(m["mask"]).startswith("spelling") else m["mask"]),
                "global-split": lambda: "split|%s|%s" % (m["option"], m["pattern"]), "dangling": lambda: "ref|%s" % m["case"]}[m["part"]]()
         res.outcomes[key] += 1
         if res.evaluations % 97 == ctx.seed % 97:
